@@ -213,10 +213,11 @@ class VSeq(Val):
 class VHeapList(Val):
     """List stored in a heap field: (len, at) uninterpreted functions of the owner object."""
 
-    def __init__(self, owner, field, elem_kind):
+    def __init__(self, owner, field, elem_kind, heap=None):
         self.owner = owner      # VRef
         self.field = field
         self.elem_kind = elem_kind
+        self.heap = heap        # None: the heap of the path at the time of use; a dict: a fixed (pre-state) heap
         self.kind = ('heaplist', elem_kind)
 
 
